@@ -26,7 +26,7 @@ CLAIMED = {
     "C14": ("proof", "every LinCombFxp operator x operand-kind cell (fixed-point, secret int, boolean, int, float; either side) at resolutions {0,3}: a returned value equals the scaled-integer spec taken from the property statement; raising is an accepted outcome"),
     "C15": ("proof", "Array.__getitem__/__setitem__ with secret indices (1-D lengths 1..3; 2-D 2x2 with every public/secret index mix and rows that are Arrays or ArrayRows): whole-array postconditions, IndexError <=> out of range, out-of-range unprovable, identical trace for every index"),
     "C16": ("proof", "to_bits/from_bits/check_positive/assert_positive: round trip, rejection outside range, requested width == enforced width, at widths different from the global bitlength"),
-    "C17": ("proof", "the @snark wrapper against a havocked body: one public input per numeric argument leaf, body receives the same shape, one public output per secret result tied by a constraint, plain values returned, nothing else public, keyword arguments refused before any event; argument/result shapes enumerated (including the same wire returned twice); LinComb.val allocates and ties one new public wire on every call"),
+    "C17": ("proof", "the @snark wrapper against a havocked body: one public input per numeric argument leaf, body receives the same shape, one public output per secret result tied by a constraint, plain values returned, nothing else public, keyword arguments refused before any event; argument/result shapes enumerated (including the same wire returned twice); LinComb.val allocates and ties one new public wire on every call; the value and refusal facets of every traced operation (C05 / C14 contracts, checks on, no guard) count as well: the plain values returned are those the undecorated function computes"),
     "C18": ("proof", "code side proved (ExitOverrider.exit/excepthook/__init__, maybe_, runtime.final); the interpreter's termination behaviour is an assumed environment contract whose clauses are validated by one subprocess probe per (termination mode, position) on the installed CPython (those probes are observations, not proofs)"),
     "C20": ("proof", "Poseidon: each of the 68 rounds of the real loop bodies equals the reference round function for ALL states (loop cut per iteration), sponge absorption/padding/output, parameter set bound to runtime.backend_name, constraint counts; ground instances against an independent plain-integer implementation and the published vectors (BN254, BLS12-381); subset-sum hash equals its plain form mod p; SHA512 generator compared with a reimplementation on 32 indices (bounded)"),
     "C19": ("proof", "the module-level selection code of runtime.py executed with a SYMBOLIC environment (pre-imported set, PYSNARK_BACKEND value, loadability map, ipython): every environment is covered by the explored paths; real backend modules are loaded through the interpreter with absent third-party dependencies stubbed"),
